@@ -3,8 +3,8 @@ CONSTANTS
   AckMode = "any"
   ThrMode = "fixed"
   EmptyMode = "fixed"
-  RstMode = "fixed"
-INVARIANTS NoViolation AckSound QueueBound InitialCredit DoneResolved NoOrphanWriter
+  RstMode = "pinned"
+INVARIANTS NoViolation AckSound QueueBound InitialCredit DoneResolved
 CONSTRAINT Track
 POSTCONDITION Accepted
 CHECK_DEADLOCK FALSE
